@@ -128,7 +128,8 @@ pub(crate) fn mk_group(g: u8, nostr: u8, name: u8, epoch: u8, active: bool) -> G
         last_message_processed_at: None,
         epoch: epoch as u64,
         state: if active { GroupState::Active } else { GroupState::Inactive },
-        self_update_state: SelfUpdateState::Required,
+        // the second name variant comes with a completed key rotation (a column of its own in SQLite)
+        self_update_state: if name == 1 { SelfUpdateState::CompletedAt(Timestamp::from_secs(T[1] + 50)) } else { SelfUpdateState::Required },
     }
 }
 
@@ -145,7 +146,8 @@ pub(crate) fn mk_msg(g: u8, id: u8, created: u8, processed: u8, epoch: Option<u8
         content: format!("c{id}"),
         tags: tg.clone(),
         event: UnsignedEvent::new(pk(), ca, Kind::Custom(9), tg, format!("c{id}")),
-        wrapper_event_id: eid(0x40, id),
+        // wrapper ids sort the other way round than message ids (a listing that ties on both timestamps is ordered by message id)
+        wrapper_event_id: eid(0x40, 0x7f - (id & 0x7f)),
         epoch: epoch.map(|e| e as u64),
         state: mstate(state),
     }
@@ -193,7 +195,8 @@ pub(crate) fn omls_gid(g: u8) -> openmls::group::GroupId {
 
 pub(crate) fn group_s(g: &Group) -> String {
     json!({"g": hx(g.mls_group_id.as_slice()), "n": hx(&g.nostr_group_id), "name": g.name, "epoch": g.epoch, "state": g.state.as_str(),
-        "lm": g.last_message_id.map(|i| i.to_hex()), "lma": g.last_message_at.map(|t| t.as_secs()), "lmp": g.last_message_processed_at.map(|t| t.as_secs())})
+        "lm": g.last_message_id.map(|i| i.to_hex()), "lma": g.last_message_at.map(|t| t.as_secs()), "lmp": g.last_message_processed_at.map(|t| t.as_secs()),
+        "su": match g.self_update_state { SelfUpdateState::Required => "required".to_string(), SelfUpdateState::CompletedAt(t) => format!("completed@{}", t.as_secs()) }})
     .to_string()
 }
 pub(crate) fn msg_s(m: &Message) -> String {
